@@ -60,6 +60,22 @@ def case(draw, depth):
         e = draw(S.int_expr(ctx, depth))
     else:
         e = draw(S.num_expr(ctx, depth, kind))
+    if kind != "int" and draw(st.integers(0, 7)) == 0:
+        # a function value that is small in magnitude (tiny argument, or an argument next to a zero of the function)
+        fn = draw(st.sampled_from(["sin", "tan", "arctan", "tanh", "arcsinh", "sinh", "cos", "sin", "arcsin", "arctanh", "log", "exp"]))
+        tiny = A.Num("float", "%de-%d" % (draw(st.integers(1, 9)), draw(st.integers(2, 9))))
+        if fn == "cos":
+            arg = A.Flat([A.Operand("", S.PI), A.Operand("", A.Num("int", "2")), A.Operand("", tiny)], ["/", draw(st.sampled_from(["+", "-"]))])
+        elif fn == "log":
+            arg = A.Flat([A.Operand("", A.Num("int", "1")), A.Operand("", tiny)], ["+"])
+        elif fn == "exp":
+            arg = S.F1(tiny, "-")
+        elif fn in ("sin", "tan") and draw(st.booleans()):
+            arg = A.Flat([A.Operand("", S.PI), A.Operand("", tiny)], [draw(st.sampled_from(["+", "-"]))])
+        else:
+            arg = S.F1(tiny, draw(st.sampled_from(["", "-"])))
+        call = A.Operand(draw(st.sampled_from(["", "-"])), A.Fn(fn, arg))
+        e = A.Flat([call], []) if draw(st.booleans()) else A.Flat([call, A.Operand("", draw(S.num_float()))], [draw(st.sampled_from(["*", "/"]))])
     if kind == "any" and draw(st.integers(0, 9)) == 0:
         # a complex value with a tiny imaginary (or real) part, possibly scaled back up
         tc = draw(S.tiny_complex())
